@@ -343,7 +343,7 @@ def impl_probe(raw, S, probes):
                     p = ps[k]
                     held.append(p)
                     return canon_part(base, raw, p)
-                out = dict(gpt=(ps.style == 'gpt'), len=call(lambda: len(ps)), keys=call(lambda: list(ps)))
+                out = dict(gpt=(ps.style == 'gpt'), len=call(lambda: len(ps)), keys=call(lambda: [k for k in ps]))
                 out['items'] = [call(lambda k=k: item(k)) for k in (out['keys'][1] if out['keys'][0] == 'ok' else [])]
                 out['probes'] = [call(lambda k=k: item(k)) for k in probes]
                 return ('ok', out)
@@ -401,28 +401,28 @@ def oracle_layout(S, l, impl):
     """the property evaluated on the implementation's output; returns None or a description"""
     exp = expected(S, l)
     if impl[0] == 'err':
-        return f'DiskImage.partitions raised {impl[1]} on a well-formed {l["kind"].upper()} image'
+        return f'raises-{impl[1]}', f'DiskImage.partitions raised {impl[1]} on a well-formed {l["kind"].upper()} image'
     d = impl[1]
     if d['gpt'] != (l['kind'] == 'gpt'):
-        return f'a {l["kind"].upper()} image was parsed as {"GPT" if d["gpt"] else "MBR"}'
+        return 'style', f'a {l["kind"].upper()} image was parsed as {"GPT" if d["gpt"] else "MBR"}'
     nums = [e[0] for e in exp]
     if d['keys'][0] != 'ok' or sorted(d['keys'][1]) != sorted(nums) or len(set(d['keys'][1])) != len(d['keys'][1]):
-        return f'partition numbers listed {d["keys"]} but the table defines {nums}'
+        return 'numbers', f'partition numbers listed {d["keys"]} but the table defines {nums}'
     if d['len'] != ('ok', len(nums)):
-        return f'len(partitions) = {d["len"]} but the table defines {len(nums)} partitions'
+        return 'len', f'len(partitions) = {d["len"]} but the table defines {len(nums)} partitions'
     by = {e[0]: e for e in exp}
     for k, it in zip(d['keys'][1], d['items']):
         n, start, length, ty, lab = by[k]
         if it[0] != 'ok':
-            return f'partitions[{k}] raised {it[1]}'
+            return 'getitem', f'partitions[{k}] raised {it[1]}'
         p = it[1]
         if p['length'] != length or (length and p['start'] != start) or not p['bytes_ok']:
-            return (f'partition {k}: window is offset {p["start"]} length {p["length"]}, the table defines '
+            return 'window', (f'partition {k}: window is offset {p["start"]} length {p["length"]}, the table defines '
                     f'[{start}, {start + length})')
         if p['type'] != ty:
-            return f'partition {k}: type {p["type"]!r}, the table says {ty!r}'
+            return 'type', f'partition {k}: type {p["type"]!r}, the table says {ty!r}'
         if p['label'] != lab:
-            return f'partition {k}: label {p["label"]!r}, the table says {lab!r}'
+            return 'label', f'partition {k}: label {p["label"]!r}, the table says {lab!r}'
     return None
 
 
@@ -431,7 +431,7 @@ def oracle_probes(l, exp_nums, probes, impl):
         return None
     for k, r in zip(probes, impl[1]['probes']):
         if k not in exp_nums and r != ('err', 'KeyError'):
-            return f'partitions[{k}] for an undefined number gave {r if r[0] == "err" else "a partition"} instead of KeyError'
+            return 'undefined-number', f'partitions[{k}] for an undefined number gave {r if r[0] == "err" else "a partition"} instead of KeyError'
     return None
 
 
@@ -443,9 +443,27 @@ class Gen:
         self.R = None
         self.err = None
         try:
-            self.R = ctx.runner('Disk')
+            # Gen/Disk.v is shared state: make sure the runner was extracted from the
+            # translation of THIS source tree (another check run may have regenerated it)
+            import gen_disk
+            for attempt in range(4):
+                with lib.Lock():
+                    want = gen_disk.emit()
+                    stale = lib.translate.write_if_changed('Disk.v', want)
+                if stale and 'Disk' in ctx.runners:
+                    ctx.runners.pop('Disk').close()
+                self.R = ctx.runner('Disk')
+                with open(os.path.join(lib.COQ, 'Gen', 'Disk.v')) as f:
+                    if f.read() == want and not stale:
+                        break
+                ctx.runners.pop('Disk').close()
+                self.R = None
+            else:
+                raise lib.BuildError('Gen/Disk.v keeps changing under the runner build')
         except lib.BuildError as e:
             self.err = str(e)
+        except lib.translate.TranslateError as e:
+            self.err = 'translator: ' + str(e)
 
     def build(self, S, l):
         mirror = py_build(S, l)
@@ -473,8 +491,8 @@ def layout_case(ctx, G, S, l, tag):
     if wf:
         bad = oracle_layout(S, l, impl) or oracle_probes(l, nums, probes, impl)
         if bad:
-            sig = 'mbr-layout/property' if l['kind'] == 'mbr' else 'gpt-layout/property'
-            ctx.violation(sig, f'{bad}  [S={S}, layout in replay file]', dict(replay, impl=brief(impl), expected=exp))
+            ctx.violation(f'{l["kind"]}-layout/{bad[0]}', f'{bad[1]}  [S={S}, layout in replay file]',
+                          dict(replay, impl=brief(impl), expected=exp))
     if G.R is not None:
         if wf:
             d = G.R.call('defined', (S, wire_layout(l)))
@@ -609,7 +627,7 @@ def mbr_corruptions(ctx, G, S, l):
             if r is not None and exp_ok and name in ('physical_drive', 'seconds', 'minutes', 'hours', 'disk_sig', 'copy_protect'):
                 bad = oracle_layout(S, l, impl_probe(img, S, []))
                 if bad:
-                    ctx.violation('mbr-layout/irrelevant-field', f'changing MBR field {name} changed the mapping: {bad}',
+                    ctx.violation('mbr-layout/irrelevant-field', f'changing MBR field {name} changed the mapping: {bad[1]}',
                                   dict(kind='image', S=S, image=img, tag=name))
 
 
@@ -740,7 +758,7 @@ def replay(ctx, obj):
         print('expected :', exp)
         print('observed :', brief(impl))
         bad = oracle_layout(S, l, impl)
-        print('verdict  :', bad or 'property holds')
+        print('verdict  :', bad[1] if bad else 'property holds')
         return bad is None
     if r.get('kind') == 'image':
         raw = bytes.fromhex(r['image']['hex'])
